@@ -483,8 +483,8 @@ fn lattice_cases() -> u64 {
 	NTYPES * start_modes().len() as u64 * DURS.len() as u64 * easings().len() as u64
 }
 /// tweens observed through the whole engine (AudioManager + device callbacks of arbitrary sizes)
-const ENGINE_CASES: u64 = 9;
-const ENGINE_NAMES: [&str; 9] = [
+const ENGINE_CASES: u64 = 10;
+const ENGINE_NAMES: [&str; 10] = [
 	"engine: tweener modulator 0->1 over 2 s linked to a sound's volume, 6 callback partitions of 32 frames (internal buffer 4)",
 	"engine: sound set_volume(-20 dB -> 0 dB over 2 s), 6 callback partitions",
 	"engine: clock set_speed(1 -> 4 ticks/s over 2 s) while the clock is not ticking, start 3 s later, 6 callback partitions",
@@ -494,6 +494,7 @@ const ENGINE_NAMES: [&str; 9] = [
 	"engine: spatial track set_position(x = 1 -> 17 over 2 s) while a sound plays on it, linear attenuation over 1..17: the level follows the distance frame by frame, 6 callback partitions",
 	"engine: streaming sound set_volume(0 dB -> -20 dB over 1 s) while its decoder delivers nothing for 4 s (6 callback partitions): when audio comes back the tween has long ended",
 	"engine: paused sound / track, resume_at(Delayed 1 s, fade-in of 2 s with a non-linear easing): once the start time is reached the fade follows its easing (chunk ends)",
+	"engine: volume control hosted in the feedback loop of a 4-frame delay, set_volume(0 -> -20 dB over 2 s): every output frame follows the recurrence with the tween's per-frame gain, 6 callback partitions",
 ];
 
 impl C06 {
@@ -1294,6 +1295,53 @@ fn engine_pass(which: u64, ctx: &mut Ctx) {
 				ctx.state(hash64(&(which, out.len())));
 				ctx.outcome(hash64(&(which, out.len())));
 				continue;
+			}
+			9 => {
+				use kira::effect::delay::DelayBuilder;
+				use kira::effect::volume_control::VolumeControlBuilder;
+				use kira::track::TrackBuilder;
+				let mut db = DelayBuilder::new().delay_time(Duration::from_secs_f64(4.0 / SR as f64)).feedback(Decibels(-6.0206)).mix(kira::Mix::WET);
+				let mut vh = db.add_feedback_effect(VolumeControlBuilder::new(Decibels(0.0)));
+				let mut t = m.add_sub_track(TrackBuilder::new().with_effect(db)).expect("track");
+				let _s = t.play(rig::static_data(SR, rig::dc_frames(4, 0.5)).loop_region(Region::from(..))).expect("play");
+				// settle: wet = fb (in + wet) -> in x fb / (1 - fb)
+				let mut sink = vec![];
+				for _ in 0..16 {
+					rig::render_stereo(&mut m, IBS, &mut sink);
+				}
+				let fb = 10f64.powf(-6.0206 / 20.0);
+				let settled = sink[sink.len() - 1].0 as f64;
+				vh.set_volume(-20.0, tw2);
+				let mut out: Vec<(f32, f32)> = vec![];
+				for &n in parts.iter() {
+					rig::render_stereo(&mut m, n, &mut out);
+					ctx.transitions += 1;
+				}
+				// frame t after the command: g(t) = 10^(-20 min((t+1)/16, 1) / 20) (a linear tween interpolated linearly inside every call)
+				let g = |t: usize| 10f64.powf(-20.0 * ((t + 1) as f64 / 16.0).min(1.0) / 20.0);
+				let mut wet: Vec<f64> = vec![];
+				let mut bad = None;
+				for (t, o) in out.iter().enumerate() {
+					let prev = if t >= 4 { wet[t - 4] } else { settled };
+					let w = g(t) * fb * (0.5 + prev);
+					wet.push(w);
+					// the chunk in which the tween ends may bend (one update of timing); partitions whose calls are longer than the
+					// delay line are worked off in passes of 4 frames - the same frames either way
+					// (what the bent chunk put into the delay line comes round once more, 4 frames later, 26 dB down)
+					let exact = t < 12 || t >= 24;
+					if exact && (o.0 as f64 - w).abs() > 2e-5 && bad.is_none() {
+						bad = Some(format!("frame {} after the command: {} expected {} (gain of the hosted volume control {:.4})", t, o.0, w, g(t)));
+					}
+				}
+				if (settled - 0.5 * fb / (1.0 - fb)).abs() > 1e-4 {
+					bad = Some(format!("machinery: the loop did not settle at in x fb / (1 - fb): {}", settled));
+				}
+				if let Some(b) = bad {
+					ctx.fail("a tween on an effect hosted in a delay's feedback loop does not follow start + (target - start) x elapsed / duration :: engine #9", format!("{}; {}; left channel {:?}", desc(), b, out.iter().map(|f| f.0).collect::<Vec<_>>()));
+				}
+				ctx.nontrivial_extra += 1;
+				ctx.state(hash64(&(which, out.len())));
+				ctx.outcome(hash64(&(which, out.len())));
 			}
 			8 => {
 				use kira::track::TrackBuilder;
